@@ -46,6 +46,8 @@ fn path_name() -> BoxedStrategy<String> {
         4 => gen::from_alphabet("abcdefghijklmnopqrstuvwxyz0123456789_/.", 1, 40),
         1 => Just("chara/equipment/e0038/texture/v01_c0201e0038_top_n.tex".to_string()),
         1 => gen::from_alphabet("aB_", 0, 3),
+        // shapes of real entries: the placeholder texture, the Dawntrail "--" prefix, shader package names, equal paths twice
+        1 => prop::sample::select(vec!["dummy.tex", "--chara/equipment/e0038/texture/v01_c0201e0038_top_m.tex", "character.shpk", "characterlegacy.shpk", "bg/ffxiv/sea_s1/twn/common/texture/s1t0_a0_flor1_d.tex", "common/graphics/texture/-fresnel.tex", ".tex", "a.tex", "a.tex"]).prop_map(|s| s.to_string()),
         // path bytes outside ASCII (mod folders): how such a path itself decodes is not pinned by the statement,
         // but the paths stored after it must still be found where they are
         1 => gen::from_alphabet("abc/_.é日ßΩ", 1, 12),
